@@ -60,7 +60,7 @@ type c19Case struct {
 	SrcCols  []int       `json:"src_cols"`  // CSV source index per mapped column (repeats allowed)
 	Sep      string      `json:"sep"`
 	PadLists bool        `json:"pad_lists,omitempty"` // the -dest-cols / -src-cols lists are written with a blank after each comma
-	Existing int         `json:"existing"` // rows present before the import
+	Existing int         `json:"existing"`            // rows present before the import
 	Records  []c19Record `json:"records"`
 }
 
